@@ -51,8 +51,8 @@ GEN = {
             "random Clean structs: 1..8 fields, 0..4 documented markers per field from every family, optional nesting to depth 2, optional struct-level markers, 1-3 structs per package sharing field names; values: base vector, every candidate of every leaf one at a time, 12 random vectors; errors.Is against every exported Err* (plain and %w-wrapped), nil receiver"),
     "C15": ("c07", "is,ctx", "Gvlean.Props.C15", ["Props.c15_cancelled", "Props.c15_already_done", "Props.c15_undisturbed", "Props.c15_wrappers"], ["ctx", "wrappers", "unknown"],
             "the random Clean structs of C07; for every value a context that turns done at its k-th Err() call for every k from 0 to polls+1, Canceled and DeadlineExceeded; observed result and number of Err() calls compared with the contract and with the Lean model; wrappers Validate/ValidateT/ValidateContext(Background) compared with ValidateTContext"),
-    "C16": ("c07", "mut", "Gvlean.Props.C16", ["Props.c16_write_set", "Props.c16_helpers_pure"], ["mut", "unknown"],
-            "the random Clean structs of C07; deep snapshot of the receiver (slice/map contents, pointer targets) before and after two Validate() calls, results compared, Value of every exported sentinel checked unset; statement forms of the generated file outside the template grammar are reported"),
+    "C16": ("c07", "mut,race", "Gvlean.Props.C16", ["Props.c16_write_set", "Props.c16_helpers_pure"], ["mut", "unknown"],
+            "the random Clean structs of C07; deep snapshot of the receiver (slice/map contents, pointer targets) before and after two Validate() calls, results compared, Value of every exported sentinel checked unset; statement forms of the generated file outside the template grammar are reported; the compiled validators built with -race and called from 2, 8 and 64 goroutines x 40 iterations on shared values and on private copies (quick: first driver chunk, thorough: all); CEL-bearing structs raced from 8 goroutines with per-goroutine inputs, receivers rendered before/after"),
     "C17": ("all", "is,ctx", "Gvlean.Props.C17", ["Props.c17_recognizers", "Props.c17_validate", "Props.c17_validate_ctx", "Props.c17_nil_receiver"], ["panic"],
             "the rule x type matrix and random structs on the adversarial value lattice (zero, -1, min, max, NaN, +-Inf, nil, empty, invalid UTF-8, DEL/control bytes) under recover(): Validate, ValidateT, ValidateContext with every cancellation point, nil receiver"),
     "C19": ("all", "alloc", "Gvlean.Props.C19", ["Props.c19", "Props.c19_only_failing_branches"], ["alloc"],
@@ -68,7 +68,7 @@ def _gen_prop(pid):
         broken, model_ok = gen.prepare(res, module, theorems)
         if broken is None:
             return
-        rows, _ = gen.run_harness(family, res.tier, res.seed, modes)
+        rows, hextra = gen.run_harness(family, res.tier, res.seed, modes)
         ev = gen.evaluate(rows, model_ok, aspects)
         nontriv = len(set((r["decl_sexp"], v) for r in rows if r.get("obs") for v, o in zip(r["values"], r["obs"]) if o != "nil")) if pid not in ("C19", "C15", "C16", "C17") else ev["nvalues"]
         gen.fill_coverage(res, ev, rows, "corr-gen + corr-sem: " + rule + "; every scenario is generated by the real govalid binary built from the working tree, dumped structurally (go/parser), compiled and run; each (struct, value) is evaluated by the compiled Lean model (modeldrv) and by the Spec (specdrv); distinct by (declaration, value); non-trivial = at least one rule violated (C19/C15/C16/C17: every evaluated value)", nontriv)
@@ -88,10 +88,20 @@ def _gen_prop(pid):
                     break
             res.cov["evaluations"] += n
             res.cov["distribution"]["recognizer-inputs-under-recover"] = n
+        if pid == "C17" and not res.violations:
+            cel.panic_check(res)
         if pid == "C15":
             cel.ctx_check(res)
         if pid == "C16":
-            cel.race_check(res)
+            rs = hextra.get("race")
+            if rs is not None:
+                res.cov["distribution"]["structs-raced (2, 8 and 64 goroutines, shared and private values, -race)"] = rs["packages"]
+                res.cov["evaluations"] += rs["packages"]
+                if rs["report"]:
+                    res.violation("race", {"kind": "race", "what": "the race detector reported a data race (or the concurrent run failed) while 2/8/64 goroutines validated shared and private values of the generated structs",
+                                           "detail": rs["report"][-6000:]}, True)
+            if not res.violations:
+                cel.race_check(res)
         if not res.violations:
             gen.report(res, ev, broken, aspects)
     return run
